@@ -1,5 +1,5 @@
 """C05: dense-time online output does not depend on how the input is cut into update() batches."""
-import itertools, random, sys, os
+import itertools, json, random, sys, os
 sys.path.insert(0, os.path.join(os.path.dirname(os.path.abspath(__file__)), "..", "harness"))
 import core, runner
 from astlib import *
@@ -143,13 +143,50 @@ def main():
     rep = core.Report("C05")
     quick = core.tier() == "quick"
     rng = random.Random(core.seed() * 7919 + 5)
+    # (A) + (B) at operator level: the pending-interval algorithm of once[a,b] / historically[a,b] (DenseOn!TimedUpd) under every
+    # chunking of every short signal (consecutive, empty and sample-repeating batches); the behaviours TLC explored are
+    # replayed on the real operator classes
+    import concurrent.futures as cf
+    import densemc, oprec
+    combos = [(k, a, b) for k in ("onceT", "histT") for a, b in IVS + [(0, 0)]]
+    mt, mn = (4, 3) if quick else (6, 5)
+    pick = set(rng.sample(range(len(combos)), 4 if quick else len(combos)))
+    def job(i):
+        k, a, b = combos[i]
+        return combos[i], densemc.run("C05_op_%s_%d_%d" % (k, a, b), k, a, b, maxt=mt, maxn=mn, emit=i in pick, workers=2 if quick else 4)
+    behs = []
+    with cf.ThreadPoolExecutor(max_workers=7 if quick else 4) as ex:
+        for (k, a, b), (r, bs) in ex.map(job, range(len(combos))):
+            rep.add_mc("DenseOnMC %s[%d,%d]: all chunkings of all signals with <= %d samples in 0..%d (NoErr Mono BatchStrict Agree Covers)" % (k, a, b, mn, mt), r)
+            if r["violated"]:
+                rep.mc_violation("DenseOnMC_%s_%d_%d" % (k, a, b), r)
+            behs += bs
+    devs = {}
+    for dev, (k, a, b) in (("dropPending", ("onceT", 0, 2)), ("noDedupe", ("histT", 1, 3))):
+        r, _ = densemc.run("C05_op_dev_" + dev, k, a, b, maxt=4, maxn=3, dev=[dev], workers=4, expect_violation=True)
+        devs[dev] = r["violated"]
+    rep.extra["deviation_on_counterexamples"] = devs
+    if len(behs) > (40000 if quick else 400000):
+        behs = rng.sample(behs, 40000 if quick else 400000)
+    optr = oprec.run_op_cases(behs)
+    ovs, ogen, odist = core.validate("C05_op", optr, module="TraceOp", batch=3000)
+    rep.add_traces(optr, ovs, ogen, odist, nontrivial_key=lambda c: json.dumps([c["kind"], c["a"], c["b"], c["hist"]]))
+    rep.extra["operator_behaviours_replayed"] = len(optr)
+    rep.extra["operator_model_exact"] = sum(1 for v in ovs if v.get("exact"))
+    if rep.extra["operator_model_exact"] != len(optr):
+        print("NOTE: model drift - %d of %d replayed operator behaviours differ from DenseOn!TimedUpd call by call (returned batch or "
+              "memory); the verdict is taken from the contract clauses only" % (len(optr) - rep.extra["operator_model_exact"], len(optr)))
     cases = gen_cases(rng, 1500 if quick else 15000, quick)
     traces = runner.run_cases(cases)
     vs_, gen, dist = core.validate("C05", traces, module="TraceCt")
     rep.add_traces(traces, vs_, gen, dist, nontrivial_key=lambda c: c["objs"][0]["text"] + str([e["w"] for e in c["events"] if e["o"] == 1 and e["a"] == "update"]))
     rep.extra["cases_by_kind"] = {k: sum(1 for c in cases if c["kind"] == k) for k in ("untimed", "timed", "future", "two_signal")}
     rep.extra["schedules_per_case"] = 4 if quick else 6
-    return rep.finish("traces: for each (formula, signal set) the same signals are fed to fresh monitors under several schedules - everything "
+    return rep.finish("TLC: operator-level machine DenseOnMC (the pending-interval algorithm of once/historically[a,b], transcribed in "
+                      "DenseOn.tla) over all signals x all chunkings incl. empty and sample-repeating batches, for 14 (operator, interval) "
+                      "pairs; the behaviours TLC explored are replayed on the real OnceTimedOperation / HistoricallyTimedOperation and "
+                      "validated by TraceOp (contract clauses; call-by-call equality with the model as binding diagnostic); "
+                      "traces: for each (formula, signal set) the same signals are fed to fresh monitors under several schedules - everything "
                       "at once, one sample per update(), and random independent per-variable splits (variables fed in staggered, possibly "
                       "empty batches); the concatenation of the returned lists must be monotone and denote Dense!SigC of the whole "
                       "signal (delayed by the horizon after pastify()) wherever it is defined, and the schedules are compared with each "
